@@ -153,6 +153,8 @@ def explore(ctx, fn, budgets, name, opts=None, max_level=None, procs=None, chunk
             stats["levels_completed"] = k
             level = nxt
             if not level:
+                # no execution offers a further deviation: every higher level is empty, hence complete
+                stats["levels_completed"] = max_level
                 break
     finally:
         pass
